@@ -46,7 +46,11 @@ structure Stable0 (dest mp : String) (I : St → Prop) : Prop where
   tick : ∀ s c t, I s → I { s with calls := c, trace := t }
   cb : ∀ s c t, I s → I { s with cb := c, cbTotal := t }
   cv : ∀ s c, I s → I { s with cv := c }
-  fs : ∀ s fs', (∀ p, p ≠ dest → p ≠ mp → FS.get? fs' p = FS.get? s.fs p) → I s → I { s with fs := fs' }
+  /-- a change of the two destination files through a write handle -/
+  fs : ∀ s fs', (∀ p, p ≠ dest → p ≠ mp → FS.get? fs' p = FS.get? s.fs p) → s.wopened ≠ [] → I s → I { s with fs := fs' }
+  /-- a successful `open(f, "wb")` of a destination file: truncation + the handle -/
+  openW : ∀ s f fs', (∀ p, p ≠ dest → p ≠ mp → FS.get? fs' p = FS.get? s.fs p) → I s →
+    I { s with fs := fs', wopened := s.wopened ++ [f] }
   new : ∀ s t, I s → I { s with heap := s.heap ++ [t] }
 
 structure Stable (dest mp : String) (I : St → Prop) : Prop extends Stable0 dest mp I where
@@ -73,13 +77,6 @@ theorem inv_forM' {f : α → M Unit} (hf : ∀ a, Inv I (f a)) : ∀ l, Inv I (
   | a :: as => by
     unfold forM'
     exact inv_bind (hf a) (fun _ => inv_forM' hf as)
-
-theorem inv_forZip {f : α → β → M Unit} (hf : ∀ a b, Inv I (f a b)) : ∀ l1 l2, Inv I (forZip f l1 l2)
-  | [], _ => by unfold forZip; exact inv_pure _
-  | _ :: _, [] => by unfold forZip; exact inv_pure _
-  | a :: as, b :: bs => by
-    unfold forZip
-    exact inv_bind (hf a b) (fun _ => inv_forZip hf as bs)
 
 end
 
@@ -111,6 +108,13 @@ section
 variable {dest mp : String} {I : St → Prop} (S : Stable0 dest mp I)
 include S
 
+omit S in
+theorem tick_cases (op : Op) (s : St) :
+    tick op s = (.error .osError, { s with calls := s.calls + 1, trace := s.trace ++ [op] }) ∨
+    tick op s = (.ok (), { s with calls := s.calls + 1, trace := s.trace ++ [op] }) := by
+  unfold tick
+  by_cases h : s.k = some s.calls <;> simp [h]
+
 theorem inv_tick (op : Op) : Inv I (tick op) := by
   intro s hs
   unfold tick
@@ -136,39 +140,63 @@ theorem inv_withClose {body : M α} (f : String) (hb : Inv I body) : Inv I (with
 
 /-! ### file-system primitives (only on `dest` or `mp`) -/
 
-theorem inv_fsSet (f : String) (c : Content) (hf : f = dest ∨ f = mp) :
-    Inv I (modify fun s => { s with fs := s.fs.set f c }) := by
-  apply inv_modify
-  intro s hs
-  apply S.fs s _ _ hs
+theorem frame_set (fs : FS) (f : String) (c : Content) (hf : f = dest ∨ f = mp) :
+    ∀ p, p ≠ dest → p ≠ mp → FS.get? (FS.set fs f c) p = FS.get? fs p := by
   intro p h1 h2
   apply get?_set_ne
   rcases hf with h | h <;> (rw [h]; assumption)
 
-theorem inv_fsApp (f : String) (b : Bytes) (hf : f = dest ∨ f = mp) :
-    Inv I (modify fun s => { s with fs := s.fs.append f b }) := by
-  apply inv_modify
-  intro s hs
-  apply S.fs s _ _ hs
+theorem frame_append (fs : FS) (f : String) (b : Bytes) (hf : f = dest ∨ f = mp) :
+    ∀ p, p ≠ dest → p ≠ mp → FS.get? (FS.append fs f b) p = FS.get? fs p := by
   intro p h1 h2
   apply get?_append_ne
   rcases hf with h | h <;> (rw [h]; assumption)
 
 theorem inv_fsOpenW (f : String) (hf : f = dest ∨ f = mp) : Inv I (fsOpenW f) := by
   unfold fsOpenW
-  exact inv_bind (inv_tick S _) (fun _ => inv_fsSet S f _ hf)
+  refine inv_bind (inv_tick S _) (fun _ => inv_modify (fun s hs => ?_))
+  exact S.openW s f _ (frame_set S s.fs f _ hf) hs
+
+/-- A body run behind `needHandle f` may assume some write handle exists. -/
+theorem inv_needHandle (f : String) {body : M α} (hb : ∀ s, I s → s.wopened ≠ [] → I (body s).2) :
+    Inv I (needHandle f >>= fun _ => body) := by
+  intro s hs
+  show I (M.bind (needHandle f) _ s).2
+  unfold M.bind needHandle
+  by_cases h : s.wopened.contains f = true
+  · simp only [h, if_true]
+    apply hb s hs
+    intro hnil
+    rw [hnil] at h
+    simp at h
+  · simp only [h]
+    exact hs
 
 theorem inv_fsWrite (f : String) (b : Bytes) (hf : f = dest ∨ f = mp) : Inv I (fsWrite f b) := by
   unfold fsWrite
-  exact inv_bind (inv_tick S _) (fun _ => inv_fsApp S f _ hf)
+  apply inv_needHandle S
+  intro s hs hw
+  show I (M.bind (tick _) _ s).2
+  unfold M.bind
+  rcases tick_cases _ s with h | h <;> rw [h]
+  · exact S.tick s _ _ hs
+  · exact S.fs _ _ (frame_append S s.fs f b hf) hw (S.tick s _ _ hs)
 
 theorem inv_fsCWrite (f : String) (b : Bytes) (hf : f = dest ∨ f = mp) : Inv I (fsCWrite f b) := by
   unfold fsCWrite
-  exact inv_fsApp S f _ hf
+  apply inv_needHandle S
+  intro s hs hw
+  exact S.fs _ _ (frame_append S s.fs f b hf) hw hs
 
 theorem inv_fsWriteProto (f : String) (p : Proto) (hf : f = dest ∨ f = mp) : Inv I (fsWriteProto f p) := by
   unfold fsWriteProto
-  exact inv_bind (inv_tick S _) (fun _ => inv_fsSet S f _ hf)
+  apply inv_needHandle S
+  intro s hs hw
+  show I (M.bind (tick _) _ s).2
+  unfold M.bind
+  rcases tick_cases _ s with h | h <;> rw [h]
+  · exact S.tick s _ _ hs
+  · exact S.fs _ _ (frame_set S s.fs f _ hf) hw (S.tick s _ _ hs)
 
 theorem inv_fsOpenR (f : String) : Inv I (fsOpenR f) := by
   unfold fsOpenR
@@ -241,7 +269,8 @@ theorem stable0_objAt (dest mp : String) (id : Nat) (t : TRef) :
   tick := fun _ _ _ h => h
   cb := fun _ _ _ h => h
   cv := fun _ _ h => h
-  fs := fun _ _ _ h => h
+  fs := fun _ _ _ _ h => h
+  openW := fun _ _ _ _ h => h
   new := fun s t' h => by
     show (s.heap ++ [t'])[id]? = some t
     have hlt : id < s.heap.length := by
@@ -361,24 +390,19 @@ theorem inv_convertToExternal (verbose : Bool) (inp : List (String × Nat)) :
   simp only []
   exact inv_bind (inv_mapM' (fun p => inv_materializeOne S _ p) _) (fun ids => inv_placeAndWrite S verbose _ ids)
 
-theorem inv_setCv (i id : Nat) : Inv I (setCv i id) := by
-  unfold setCv
-  exact inv_modify (fun s hs => S.cv s _ hs)
-
 theorem inv_unload (names : List String) (verbose : Bool) : Inv I (unload names dest verbose) := by
   unfold unload
   refine inv_bind inv_get (fun s => ?_)
-  simp only []
   refine inv_bind (inv_mapM' (fun i => inv_extToMem S.toStable0 _) _) (fun memIds => ?_)
   refine inv_bind (inv_convertToExternal S verbose _) (fun extIds => ?_)
-  exact inv_bind (inv_forZip (fun i id => inv_setCv S i id) _ _) (fun _ => inv_forZip (fun i id => inv_setCv S i id) _ _)
+  exact inv_modify (fun s' hs => S.cv s' _ hs)
 
 end
 
 /-- Every stable invariant (for `dest = dir/name.data`, `mp = dir/name`) survives the whole save, for every fault plan. -/
-theorem inv_save {I : St → Prop} (deep : Bool) (sig : List (String × Bool)) (dir name : String) (verbose : Bool)
+theorem inv_save {I : St → Prop} (deep : Bool) (sig : List (String × Bool)) (tnames : List String) (dir name : String) (verbose : Bool)
     (S : Stable (joinPath dir (name ++ ".data")) (joinPath dir name) I) :
-    Inv I (save deep sig dir name verbose) := by
+    Inv I (save deep sig tnames dir name verbose) := by
   unfold save
   refine inv_bind inv_get (fun s => ?_)
   split
@@ -406,7 +430,8 @@ theorem stable_orig (h0 : List TRef) (dest mp : String)
   tick := fun _ _ _ h => h
   cb := fun _ _ _ h => h
   cv := fun _ _ h => h
-  fs := fun _ _ _ h => h
+  fs := fun _ _ _ _ h => h
+  openW := fun _ _ _ _ h => h
   new := fun s t' h id t ht => by
     show (s.heap ++ [t'])[id]? = some t
     have h1 := h id t ht
@@ -432,15 +457,18 @@ theorem stable_frame (fs0 : FS) (dest mp : String) :
   tick := fun _ _ _ h => h
   cb := fun _ _ _ h => h
   cv := fun _ _ h => h
-  fs := fun s fs' hfs h p h1 h2 => by
+  fs := fun s fs' hfs _ h p h1 h2 => by
+    show FS.get? fs' p = FS.get? fs0 p
+    rw [hfs p h1 h2]; exact h p h1 h2
+  openW := fun s f fs' hfs h p h1 h2 => by
     show FS.get? fs' p = FS.get? fs0 p
     rw [hfs p h1 h2]; exact h p h1 h2
   new := fun _ _ h => h
   inval := fun _ _ _ _ _ _ h _ _ => h
 
 /-- The `const_value` pointers after the call are the ones before it — `finally` of `ir.save`. -/
-theorem save_cv (deep : Bool) (sig : List (String × Bool)) (dir name : String) (verbose : Bool) (s : St) :
-    (save deep sig dir name verbose s).2.cv = s.cv := by
+theorem save_cv (deep : Bool) (sig : List (String × Bool)) (tnames : List String) (dir name : String) (verbose : Bool) (s : St) :
+    (save deep sig tnames dir name verbose s).2.cv = s.cv := by
   unfold save
   show (M.bind get _ s).2.cv = s.cv
   simp only [M.bind, get]
@@ -451,9 +479,9 @@ theorem save_cv (deep : Bool) (sig : List (String × Bool)) (dir name : String) 
     simp only [M.bind, get, tryFinally]
 
 /-- The guard fires: nothing at all happens. -/
-theorem save_guard (deep : Bool) (sig : List (String × Bool)) (dir name : String) (verbose : Bool) (s : St)
+theorem save_guard (deep : Bool) (sig : List (String × Bool)) (tnames : List String) (dir name : String) (verbose : Bool) (s : St)
     (h : (guardHits deep sig s.cv).isEmpty = false) :
-    save deep sig dir name verbose s = (.error .valueError, s) := by
+    save deep sig tnames dir name verbose s = (.error .valueError, s) := by
   unfold save
   show M.bind get _ s = _
   simp only [M.bind, get, h]
@@ -605,234 +633,5 @@ end OV.C20
 
 namespace OV.C20
 
-/-! ### the fault-free write loop on in-memory tensors -/
-
-theorem tick_ok (op : Op) (s : St) (hk : s.k = none) :
-    tick op s = (.ok (), { s with calls := s.calls + 1, trace := s.trace ++ [op] }) := by
-  unfold tick
-  simp [hk]
-
-theorem get?_set_eq (fs : FS) (f : String) (c : Content) : FS.get? (FS.set fs f c) f = some c := by
-  induction fs with
-  | nil => simp [FS.set, FS.get?, List.lookup]
-  | cons x rest ih =>
-    obtain ⟨g, d⟩ := x
-    simp only [FS.set]
-    by_cases hg : g = f
-    · subst hg; simp [FS.get?, List.lookup]
-    · simp only [hg, if_false, FS.get?, List.lookup]
-      have : (f == g) = false := by simpa using (fun h => hg h.symm)
-      simp only [this]
-      exact ih
-
-theorem set_set (fs : FS) (f : String) (c d : Content) : FS.set (FS.set fs f c) f d = FS.set fs f d := by
-  induction fs with
-  | nil => simp [FS.set]
-  | cons x rest ih =>
-    obtain ⟨g, e⟩ := x
-    simp only [FS.set]
-    by_cases hg : g = f
-    · subst hg; simp [FS.set]
-    · simp only [hg, if_false, FS.set, ih]
-
-theorem set_same (fs : FS) (f : String) (c : Content) (h : FS.get? fs f = some c) : FS.set fs f c = fs := by
-  induction fs with
-  | nil => simp [FS.get?] at h
-  | cons x rest ih =>
-    obtain ⟨g, d⟩ := x
-    simp only [FS.get?, List.lookup] at h
-    simp only [FS.set]
-    by_cases hg : g = f
-    · subst hg
-      simp only [BEq.rfl, Option.some.injEq] at h
-      subst h; simp
-    · have : (f == g) = false := by simpa using (fun h => hg h.symm)
-      simp only [this] at h
-      simp only [hg, if_false, List.cons.injEq, true_and]
-      exact ih h
-
-theorem append_data (fs : FS) (f : String) (c b : Bytes) (h : FS.get? fs f = some (.data c)) :
-    FS.append fs f b = FS.set fs f (.data (c ++ b)) := by
-  unfold FS.append
-  rw [h]
-
-/-- Items handed to the write loop for tensors `(name, id, bytes)` laid out from `cur`. -/
-def mkItems (cur : Nat) : List (String × Nat × Bytes) → List (String × Nat × Nat)
-  | [] => []
-  | (n, id, b) :: r => (n, id, newOffset cur b.length) :: mkItems (newOffset cur b.length + b.length) r
-
-/-- What matters of a state for the fault-free lemmas (everything but the call counter, trace and callback log). -/
-structure Core (s s' : St) (fs' : FS) : Prop where
-  k : s'.k = s.k
-  heap : s'.heap = s.heap
-  cv : s'.cv = s.cv
-  fs : s'.fs = fs'
-
-theorem bind_apply (f : M α) (g : α → M β) (s : St) :
-    (f >>= g) s = match f s with
-      | (.ok a, s') => g a s'
-      | (.error e, s') => (.error e, s') := rfl
-theorem pure_apply (a : α) (s : St) : (pure a : M α) s = (.ok a, s) := rfl
-theorem get_apply (s : St) : get s = (.ok s, s) := rfl
-theorem modify_apply (g : St → St) (s : St) : modify g s = (.ok (), g s) := rfl
-
-theorem fileLen_data (f : String) (c : Bytes) (s : St) (h : FS.get? s.fs f = some (.data c)) :
-    fileLen f s = (.ok c.length, s) := by
-  unfold fileLen
-  simp only [bind_apply, get_apply, h, pure_apply]
-
-theorem getObj_ok (id : Nat) (t : TRef) (s : St) (h : s.heap[id]? = some t) : getObj id s = (.ok t, s) := by
-  rcases getObj_spec id s with ⟨t', ht, hg⟩ | ⟨hn, _⟩
-  · rw [h] at ht; cases ht; exact hg
-  · rw [h] at hn; cases hn
-
-/-- `tensor.tofile(file)` for an in-memory tensor, no fault: the bytes are appended, nothing else changes. -/
-theorem tofile_mem_ok (dest : String) (id : Nat) (b c : Bytes) (np : Bool) (s : St)
-    (hk : s.k = none) (hobj : s.heap[id]? = some (.mem b np)) (hfile : FS.get? s.fs dest = some (.data c)) :
-    ∃ s', tofile dest id s = (.ok (), s') ∧ Core s s' (FS.set s.fs dest (.data (c ++ b))) := by
-  unfold tofile
-  simp only [bind_apply, getObj_ok id _ s hobj]
-  cases np with
-  | true =>
-    simp only [bind_apply, tick_ok _ s hk, fsCWrite, modify_apply, append_data _ _ _ _ hfile]
-    rw [fileLen_data dest (c ++ b) _ (by simp only [get?_set_eq])]
-    simp only []
-    rw [tick_ok _ _ (by exact hk)]
-    exact ⟨_, rfl, ⟨rfl, rfl, rfl, rfl⟩⟩
-  | false =>
-    simp only [fsWrite, bind_apply, tick_ok _ s hk, modify_apply, append_data _ _ _ _ hfile]
-    exact ⟨_, rfl, ⟨rfl, rfl, rfl, rfl⟩⟩
-
-theorem Core.trans {s s1 s2 : St} {fs1 fs2 : FS} (h1 : Core s s1 fs1) (h2 : Core s1 s2 fs2) : Core s s2 fs2 :=
-  ⟨h2.k.trans h1.k, h2.heap.trans h1.heap, h2.cv.trans h1.cv, h2.fs⟩
-
-/-- The part of `writeOne` after the callback: padding up to the offset, then `tofile`. -/
-theorem writeRest_ok (dest : String) (id : Nat) (b c : Bytes) (np : Bool) (s : St)
-    (hk : s.k = none) (hobj : s.heap[id]? = some (.mem b np)) (hfile : FS.get? s.fs dest = some (.data c)) :
-    ∃ s', (do
-        let size ← fileLen dest
-        if newOffset c.length b.length > size then do
-            fsWrite dest (zeros (newOffset c.length b.length - size))
-            tofile dest id
-          else tofile dest id) s = (.ok (), s') ∧
-      Core s s' (FS.set s.fs dest (.data (c ++ zeros (newOffset c.length b.length - c.length) ++ b))) := by
-  have hge := newOffset_ge c.length b.length
-  simp only [bind_apply, fileLen_data dest c s hfile]
-  by_cases hpad : newOffset c.length b.length > c.length
-  · simp only [hpad, if_true, fsWrite, bind_apply, tick_ok _ s hk, modify_apply, append_data _ _ _ _ hfile]
-    obtain ⟨s', h1, h2⟩ := tofile_mem_ok dest id b (c ++ zeros (newOffset c.length b.length - c.length)) np
-      { s with calls := s.calls + 1, trace := s.trace ++ [Op.write dest (zeros (newOffset c.length b.length - c.length)).length],
-               fs := FS.set s.fs dest (.data (c ++ zeros (newOffset c.length b.length - c.length))) }
-      hk hobj (by simp only [get?_set_eq])
-    refine ⟨s', h1, ?_⟩
-    have h3 := h2.fs
-    simp only [set_set] at h3
-    exact ⟨h2.k, h2.heap, h2.cv, h3⟩
-  · simp only [hpad, if_false]
-    obtain ⟨s', h1, h2⟩ := tofile_mem_ok dest id b c np s hk hobj hfile
-    refine ⟨s', h1, ?_⟩
-    have : newOffset c.length b.length - c.length = 0 := by omega
-    rw [this]
-    simpa [zeros] using h2
-
-theorem writeOne_ok (dest : String) (verbose : Bool) (name : String) (id : Nat) (b c : Bytes) (np : Bool) (s : St)
-    (hk : s.k = none) (hobj : s.heap[id]? = some (.mem b np)) (hfile : FS.get? s.fs dest = some (.data c)) :
-    ∃ s', writeOne dest verbose (name, id, newOffset c.length b.length) s = (.ok (), s') ∧
-      Core s s' (FS.set s.fs dest (.data (c ++ zeros (newOffset c.length b.length - c.length) ++ b))) := by
-  unfold writeOne
-  simp only []
-  cases verbose with
-  | false =>
-    simp only [Bool.false_eq_true, if_false]
-    exact writeRest_ok dest id b c np s hk hobj hfile
-  | true =>
-    simp only [if_true, bind_apply, modify_apply]
-    obtain ⟨s', h1, h2⟩ := writeRest_ok dest id b c np
-      { s with cb := s.cb ++ [(name, newOffset c.length b.length)] } hk hobj hfile
-    exact ⟨s', h1, ⟨h2.k, h2.heap, h2.cv, h2.fs⟩⟩
-
-/-- The whole loop, no fault, in-memory tensors: the file grows by exactly `image`. -/
-theorem writeLoop_ok (dest : String) (verbose : Bool) :
-    ∀ (ts : List (String × Nat × Bytes)) (c : Bytes) (s : St), s.k = none →
-      (∀ x ∈ ts, ∃ np, s.heap[x.2.1]? = some (.mem x.2.2 np)) →
-      FS.get? s.fs dest = some (.data c) →
-      ∃ s', forM' (writeOne dest verbose) (mkItems c.length ts) s = (.ok (), s') ∧
-        Core s s' (FS.set s.fs dest (.data (c ++ image c.length (ts.map (·.2.2))))) := by
-  intro ts
-  induction ts with
-  | nil =>
-    intro c s hk _ hf
-    refine ⟨s, rfl, ⟨rfl, rfl, rfl, ?_⟩⟩
-    simp only [List.map_nil, image, List.append_nil]
-    exact (set_same _ _ _ hf).symm
-  | cons t ts ih =>
-    intro c s hk hobjs hf
-    obtain ⟨n, id, b⟩ := t
-    obtain ⟨np, hnp⟩ := hobjs (n, id, b) (List.mem_cons_self)
-    obtain ⟨s1, h1, c1⟩ := writeOne_ok dest verbose n id b c np s hk hnp hf
-    have hk1 : s1.k = none := by rw [c1.k]; exact hk
-    have hlen : (c ++ zeros (newOffset c.length b.length - c.length) ++ b).length = newOffset c.length b.length + b.length := by
-      have := newOffset_ge c.length b.length
-      simp only [List.length_append, zeros, List.length_replicate]; omega
-    obtain ⟨s2, h2, c2⟩ := ih (c ++ zeros (newOffset c.length b.length - c.length) ++ b) s1 hk1
-      (by
-        intro x hx
-        obtain ⟨np', h'⟩ := hobjs x (List.mem_cons_of_mem _ hx)
-        exact ⟨np', by rw [c1.heap]; exact h'⟩)
-      (by rw [c1.fs]; exact get?_set_eq _ _ _)
-    refine ⟨s2, ?_, ?_⟩
-    · simp only [mkItems, forM', bind_apply, h1]
-      rw [hlen] at h2
-      exact h2
-    · have := Core.trans c1 c2
-      refine ⟨this.k, this.heap, this.cv, ?_⟩
-      have hfs := this.fs
-      rw [c1.fs, set_set, hlen] at hfs
-      rw [hfs]
-      simp only [List.map_cons, image, List.append_assoc]
-
-/-- `_write_external_data`, no fault, in-memory tensors: afterwards the data file is exactly `image 0 …`. -/
-theorem writeExternalData_ok (dest : String) (verbose : Bool) (ts : List (String × Nat × Bytes)) (s : St)
-    (hk : s.k = none) (hobjs : ∀ x ∈ ts, ∃ np, s.heap[x.2.1]? = some (.mem x.2.2 np)) :
-    ∃ s', writeExternalData dest verbose (mkItems 0 ts) s = (.ok (), s') ∧
-      Core s s' (FS.set s.fs dest (.data (image 0 (ts.map (·.2.2))))) := by
-  unfold writeExternalData fsOpenW
-  simp only [bind_apply, tick_ok _ s hk, modify_apply]
-  -- the state inside the `with` block
-  generalize hs0 : ({ s with calls := s.calls + 1, trace := s.trace ++ [Op.openW dest],
-                             fs := FS.set s.fs dest (.data []) } : St) = s0
-  have hk0 : s0.k = none := by rw [← hs0]; exact hk
-  have hh0 : s0.heap = s.heap := by rw [← hs0]
-  have hc0 : s0.cv = s.cv := by rw [← hs0]
-  have hf0 : s0.fs = FS.set s.fs dest (.data []) := by rw [← hs0]
-  have hbody : ∀ (st : St), st.k = none → st.heap = s.heap → st.cv = s.cv → st.fs = FS.set s.fs dest (.data []) →
-      ∃ st', forM' (writeOne dest verbose) (mkItems 0 ts) st = (.ok (), st') ∧
-        Core st st' (FS.set s.fs dest (.data (image 0 (ts.map (·.2.2))))) := by
-    intro st hkst hhst _ hfst
-    obtain ⟨st', h1, h2⟩ := writeLoop_ok dest verbose ts [] st hkst
-      (by intro x hx; obtain ⟨np, h⟩ := hobjs x hx; exact ⟨np, by rw [hhst]; exact h⟩)
-      (by rw [hfst]; exact get?_set_eq _ _ _)
-    refine ⟨st', h1, ⟨h2.k, h2.heap, h2.cv, ?_⟩⟩
-    rw [h2.fs, hfst, set_set]
-    simp
-  unfold withClose
-  by_cases hcb : (verbose && !(mkItems 0 ts).isEmpty) = true
-  · simp only [hcb, if_true, bind_apply, modify_apply]
-    obtain ⟨st', h1, h2⟩ := hbody { s0 with cbTotal := some (mkItems 0 ts).length } hk0 hh0 hc0 hf0
-    rw [h1]
-    simp only []
-    rw [tick_ok _ st' (by rw [h2.k]; exact hk0)]
-    exact ⟨_, rfl, ⟨by show st'.k = s.k; rw [h2.k]; show s0.k = s.k; rw [← hs0],
-      by show st'.heap = s.heap; rw [h2.heap]; exact hh0,
-      by show st'.cv = s.cv; rw [h2.cv]; exact hc0, h2.fs⟩⟩
-  · simp only [hcb]
-    obtain ⟨st', h1, h2⟩ := hbody s0 hk0 hh0 hc0 hf0
-    simp only [Bool.false_eq_true, if_false]
-    rw [h1]
-    simp only []
-    rw [tick_ok _ st' (by rw [h2.k]; exact hk0)]
-    exact ⟨_, rfl, ⟨by show st'.k = s.k; rw [h2.k]; rw [← hs0],
-      by show st'.heap = s.heap; rw [h2.heap]; exact hh0,
-      by show st'.cv = s.cv; rw [h2.cv]; exact hc0, h2.fs⟩⟩
-
 end OV.C20
+
